@@ -6,7 +6,6 @@ from .c03 import PLAN, BOUNDS
 ASSUMPTIONS = [
     "C06: same one-step harness and universes as C03; whenever the operation raises, the identity-based snapshot of every object "
     "reachable from the universe (parents, ordered child lists, names, ids, types, attributes, values, cardinalities, link/include/merged) is unchanged",
-    "C06: the input classes of the open findings of C03 are assumed away here as well when they make the call succeed wrongly; a refusal is still compared",
 ]
 
 
